@@ -42,6 +42,14 @@ func c12qScenario(scratch string, p c12qParams) vx.ScheduleScenario {
 		bounce := &qhTarget{name: "bounce"}
 		acked := map[string]bool{}
 		closeReturned := false
+		// shutdown has terminated when Close returns: a delivery attempt still touching
+		// the target afterwards means it has not
+		var afterClose []string
+		tgt.onEvent = func(ev string) {
+			if closeReturned {
+				afterClose = append(afterClose, ev)
+			}
+		}
 		var initErr error
 		return vsched.Scenario{
 			Root: func() {
@@ -96,6 +104,9 @@ func c12qScenario(scratch string, p c12qParams) vx.ScheduleScenario {
 				}
 				if len(tgt.viol) > 0 {
 					return "C12:queue:typestate", strings.Join(tgt.viol, "; ")
+				}
+				if len(afterClose) > 0 {
+					return "C12:queue:attempt-running-after-close-returned", fmt.Sprintf("Close had returned and the target still saw: %v", afterClose)
 				}
 				// ledger of this run
 				delivered := map[string]int{}
@@ -185,7 +196,7 @@ func TestVerifC12Queue(t *testing.T) {
 	scratch = filepath.Join(scratch, fmt.Sprintf("c12q-%d", r.Shard))
 	os.MkdirAll(scratch, 0o755)
 	defer os.RemoveAll(scratch)
-	r.Rule("every interleaving (lock, channel, select, atomic, WaitGroup, goroutine start, timer expiry of the scheduler-rewritten queue.go and timewheel.go, real spool on tmpfs) of a real queue with 1-2 accepted messages, scripted temporary failures (retry scheduling), 0-1 late enqueue and one Close up to the pre-emption bound; oracle: no panic escapes, no deadlock, Close returns, no recipient committed twice, afterwards every message that still owes a recipient has intact .meta/.header/.body (never .meta_broken) and a restarted queue delivers it. Non-trivial: distinct schedules with a pre-emption or >1 context switch")
+	r.Rule("every interleaving (lock, channel, select, atomic, WaitGroup, goroutine start, timer expiry of the scheduler-rewritten queue.go and timewheel.go, real spool on tmpfs) of a real queue with 1-2 accepted messages, scripted temporary failures (retry scheduling), 0-1 late enqueue and one Close up to the pre-emption bound; oracle: no panic escapes, no deadlock, Close returns and no delivery attempt touches the target after it returned, no recipient committed twice, afterwards every message that still owes a recipient has intact .meta/.header/.body (never .meta_broken) and a restarted queue delivers it. Non-trivial: distinct schedules with a pre-emption or >1 context switch")
 	b := 2
 	m1 := qhSimpleMsg("m1", "s@example.com", "a1@example.org")
 	m2 := qhSimpleMsg("m2", "s@example.com", "a2@example.org")
